@@ -413,6 +413,13 @@ class Interp(object):
             raise Unknown('sequence %s' % ast.unparse(e)[:40])
         if isinstance(e, ast.BinOp) and isinstance(e.op, ast.Add):
             return self.concat(self.seq_or_const(e.left, env), self.seq_or_const(e.right, env))
+        # copies: list(x), x.copy(), x[:]
+        if isinstance(e, ast.Call) and isinstance(e.func, ast.Name) and e.func.id == 'list' and len(e.args) == 1:
+            return self.seq(e.args[0], env)
+        if isinstance(e, ast.Call) and isinstance(e.func, ast.Attribute) and e.func.attr == 'copy' and not e.args:
+            return self.seq(e.func.value, env)
+        if isinstance(e, ast.Subscript) and isinstance(e.slice, ast.Slice) and e.slice.lower is None and e.slice.upper is None and e.slice.step is None:
+            return self.seq(e.value, env)
         raise Unknown('sequence expression %s' % ast.unparse(e)[:40])
 
     def seq_or_const(self, e, env):
